@@ -6,7 +6,9 @@ virtual clock) with 1-3 scripted observers, against the Lean observe-server mode
 sequence the implementation executed — including the order in which asyncio ran the render tasks,
 which is hash-dependent when `updated_state` iterates its set — is replayed on the model; every
 datagram, pipe event, `update_observation_count` call, cancellation callback and render start must
-agree, in order.  Oracle: harness/c08_oracle.py (RFC 7641 section 4 read independently).
+agree, in order.  Oracle: harness/c08_oracle.py (RFC 7641 section 4 read independently); it judges the
+latest state also for registrations that ended by a last-marked notification (the final notification must be as new
+as the last change before it) and looks at retransmissions, not only first transmissions, after the end.
 """
 import multiprocessing
 import os
@@ -22,7 +24,12 @@ RULE = ("corpus, then a boundary table enumerated in full (CON/NON registrations
         "suspended render / mixed with explicit responses; every observer reaction ACK, Reset, silence, "
         "re-registration, deregistration, plain GET on the token x the phase of the render task (idle, rendering, "
         "woken, notification queued); acknowledgement of the k-th copy; transport error and shutdown in every "
-        "phase; 2-3 observers incl. shared response objects; unsuccessful/raising/last notifications; Reset of "
+        "phase; 2-3 observers incl. shared response objects; unsuccessful/raising/last notifications; "
+        "trigger(..., is_last=True) x the phase of the render task when it arrives (idle; the previous change's render "
+        "suspended, with the final render immediate / suspended / failing, after an update or a single trigger; a second "
+        "plain or last-marked change in the same window; during the FINAL render; woken before/after another change; "
+        "earlier notifications unacknowledged or queued; during the first render) x rendered / explicit final message x "
+        "CON / NON x one or two observers; Reset of "
         "a NON notification; duplicates and noise; a resource whose add_observation suspends after accepting x every "
         "ending cause inside and after that window - oracle only), then random scripts from env.rng. Non-trivial: at least one "
         "notification beyond the first response was put on a pipe, or a registration ended.")
